@@ -605,7 +605,10 @@ impl<'a> Model<'a> {
         }
         self.reset_dynamic_array_spills(sheet)?;
         let worksheet = self.workbook.worksheet(sheet)?;
-        let all_rows: Vec<i32> = worksheet.sheet_data.keys().copied().collect();
+        let mut all_rows: Vec<i32> = worksheet.sheet_data.keys().copied().collect();
+        // Formulas are re-entered as they are moved: a fixed order keeps the formula indices
+        // the same in every copy of the workbook that applies this edit
+        all_rows.sort_unstable();
         for row in all_rows {
             let sorted_columns = self.get_columns_for_row(sheet, row, true)?;
             for col in sorted_columns {
